@@ -549,6 +549,14 @@ func checkCase(c Case) error {
 			return err
 		}
 	}
+	if d, err := er.Document(); err != nil {
+		return fmt.Errorf("epubdoc Document: %v", err)
+	} else {
+		_, out := docUnits(d)
+		if err := checkLoose("EPUB chapter Document", out, ex); err != nil {
+			return err
+		}
+	}
 	epath := filepath.Join(dir, "x.epub")
 	if err := os.WriteFile(epath, ep, 0o644); err != nil {
 		return nil
@@ -662,7 +670,7 @@ func meta(c Case) vr.Meta {
 }
 
 func TestHTML(t *testing.T) {
-	vr.Prop(t, "html", vr.N(6000, 150000), genCase, meta, checkCase)
+	vr.Prop(t, "html", vr.N(6000, 200000), genCase, meta, checkCase)
 }
 
 // TestVocabularySweep enumerates completely: every wrapper element x every
